@@ -43,15 +43,14 @@ func (r *simRun) cursor() []interface{} {
 // drain polls every pending event (with a short grace period for nothing pending).
 func (r *simRun) drain(afterShow bool) {
 	evs := []interface{}{}
-	for r.s.HasPendingEvent() {
-		ev := r.s.PollEvent()
+	drainPending(r.s, "sim", nil, func(ev tcell.Event) {
 		if rz, ok := ev.(*tcell.EventResize); ok {
 			w, h := rz.Size()
 			evs = append(evs, []interface{}{"resize", w, h})
-			continue
+			return
 		}
 		evs = append(evs, evJSON(ev))
-	}
+	})
 	r.tw.Emit(trace.Ev{"ev": "Drain", "evs": evs, "aftershow": afterShow})
 }
 
